@@ -33,6 +33,24 @@ func Main(args []string) int {
 	switch args[0] {
 	case "raw":
 		return raw(args[1:])
+	case "build":
+		// verif build [-race] <out>: developer aid, keeps the harness binary
+		race := len(args) > 1 && args[1] == "-race"
+		out := args[len(args)-1]
+		scratch, err := os.MkdirTemp("", "verif-")
+		if err != nil {
+			return 2
+		}
+		if os.Getenv("VERIF_KEEP") == "" {
+			defer os.RemoveAll(scratch)
+		} else {
+			fmt.Fprintln(os.Stderr, "scratch kept:", scratch)
+		}
+		if err := build.Build(build.Config{Repo: repoRoot(), Verif: verifRoot(), Race: race, Out: out, Scratch: scratch}); err != nil {
+			fmt.Fprintln(os.Stderr, err)
+			return 2
+		}
+		return 0
 	case "check":
 		return check(args[1:])
 	case "replay":
